@@ -37,6 +37,10 @@ pub enum Tok {
     Int(i64),
     Bool(bool),
     Str(String),
+    /// a D6 word (`inf` / `nan` in any case, an integer literal outside the signed 64-bit range):
+    /// the documentation does not say whether it is a number or an identifier, but either way it
+    /// is one operand token
+    Opaque(String),
 }
 
 impl PartialEq for Tok {
@@ -48,9 +52,10 @@ impl PartialEq for Tok {
             (Int(a), Int(b)) => a == b,
             (Bool(a), Bool(b)) => a == b,
             (Str(a), Str(b)) => a == b,
+            (Opaque(a), Opaque(b)) => a == b,
             (a, b) => {
                 std::mem::discriminant(a) == std::mem::discriminant(b)
-                    && !matches!(a, Ident(_) | Float(_) | Int(_) | Bool(_) | Str(_))
+                    && !matches!(a, Ident(_) | Float(_) | Int(_) | Bool(_) | Str(_) | Opaque(_))
             },
         }
     }
@@ -82,13 +87,16 @@ impl Tok {
     pub fn is_ident(&self) -> bool {
         matches!(self, Tok::Ident(_))
     }
+    pub fn is_opaque(&self) -> bool {
+        matches!(self, Tok::Opaque(_))
+    }
     /// literal, identifier, `)`
     pub fn right_sided(&self) -> bool {
-        self.is_literal() || self.is_ident() || matches!(self, Tok::RParen)
+        self.is_literal() || self.is_ident() || self.is_opaque() || matches!(self, Tok::RParen)
     }
     /// literal, identifier, `(`
     pub fn left_sided(&self) -> bool {
-        self.is_literal() || self.is_ident() || matches!(self, Tok::LParen)
+        self.is_literal() || self.is_ident() || self.is_opaque() || matches!(self, Tok::LParen)
     }
     /// left-sided, or `-`, or `!`
     pub fn operand_start(&self) -> bool {
@@ -139,6 +147,7 @@ impl Tok {
             Comma => ",".into(),
             Semi => ";".into(),
             Ident(s) => s.clone(),
+            Opaque(s) => s.clone(),
             Float(f) => {
                 assert!(f.is_finite() && f.is_sign_positive(), "float literal must be finite and non-negative");
                 format!("{:?}", f)
@@ -201,7 +210,7 @@ impl LexErr {
 pub struct LexOut {
     pub toks: Vec<Tok>,
     /// D6: the text contains an unclaimed word (inf / infinity / nan in any case, or an integer
-    /// literal outside the signed 64-bit range). The token produced for it is an `Ident`.
+    /// literal outside the signed 64-bit range). The token produced for it is `Tok::Opaque`.
     pub d6: bool,
 }
 
@@ -402,7 +411,7 @@ pub fn lex(src: &str) -> Result<LexOut, LexErr> {
             WordClass::Bool(b) => toks.push(Tok::Bool(b)),
             WordClass::Unclaimed => {
                 d6 = true;
-                toks.push(Tok::Ident(w));
+                toks.push(Tok::Opaque(w));
             },
             WordClass::Ident => {
                 // `M e` immediately followed by + or - and immediately by a word of digits
@@ -476,7 +485,7 @@ fn window_ok(toks: &[Tok], lo: usize, hi: usize, tight: &dyn Fn(usize) -> bool) 
         text.push_str(&toks[k].text());
     }
     match lex(&text) {
-        Ok(out) => !out.d6 && out.toks == toks[lo..hi],
+        Ok(out) => (!out.d6 || toks[lo..hi].iter().any(|t| t.is_opaque())) && out.toks == toks[lo..hi],
         Err(_) => false,
     }
 }
